@@ -124,7 +124,7 @@ theorem int_run_any {τ} (k : Kind) (c : Ctx) (hc : c ≠ .hTop) (data : Bytes) 
   · exact int_run_dfa k c (by simpa using hu) hc data h hsm l fuel p st r hat hp hf
 
 /-- after the optional minus sign -/
-theorem num1_run {τ} (k : Kind) (c : Ctx) (hv : VCtx k c) (data : Bytes) (h : Handler τ) (hsm : Small data)
+theorem num1_run {τ} (k : Kind) (c : Ctx) (hc : c ≠ .hTop) (data : Bytes) (h : Handler τ) (hsm : Small data)
     (s : AS) (d : UInt8) (t : List UInt8)
     (hstep : (machine k).step s d =
       if d == 48 then ([], some ⟨c, .tok .zero⟩) else if isDig19 d then ([], some ⟨c, .tok .int⟩) else errTr k c)
@@ -139,7 +139,7 @@ theorem num1_run {τ} (k : Kind) (c : Ctx) (hv : VCtx k c) (data : Bytes) (h : H
   · subst hd
     simp only [beq_self_eq_true, if_true] at hstep
     rw [scanNum1_zero]
-    have key := num_tail_any k c hv.notHTop .zero (.inl rfl) data h hsm t fuel (p + 1) st
+    have key := num_tail_any k c hc .zero (.inl rfl) data h hsm t fuel (p + 1) st
       { r with p := ((p + 1 : Nat) : Int) } hat' rfl herr hf' (by intro hh; cases hh)
     have hgo := loopL_goto (machine k) data h fuel s _ st r p 48 t hsm hp hat hstep
     cases hsc : scanFrac t with
@@ -161,7 +161,7 @@ theorem num1_run {τ} (k : Kind) (c : Ctx) (hv : VCtx k c) (data : Bytes) (h : H
     · simp only [h19, if_true] at hstep
       have h19' : (49 ≤ d && d ≤ 57) = true := h19
       simp only [h19', if_true]
-      have key := int_run_any k c hv.notHTop data h hsm t fuel (p + 1) st
+      have key := int_run_any k c hc data h hsm t fuel (p + 1) st
         { r with p := ((p + 1 : Nat) : Int) } hat' rfl herr hf'
       have hgo := loopL_goto (machine k) data h fuel s _ st r p d t hsm hp hat hstep
       cases hsc : scanFrac (skipDigits t) with
@@ -350,11 +350,11 @@ theorem scalar_run {τ} (k : Kind) (c : Ctx) (hv : VCtx k c) (data : Bytes) (h :
     cases rest with
     | nil => exact Outcome.of_eof k data h fuel _ st _ (p + 1) rfl hat' (minus_not_final c) _ _
     | cons d t =>
-      exact num1_run k c hv data h hsm _ d t (by simp only [machine, step]) fuel (p + 1) st _ hat' rfl herr hf'
+      exact num1_run k c hv.notHTop data h hsm _ d t (by simp only [machine, step]) fuel (p + 1) st _ hat' rfl herr hf'
   · have h45' : (b == 45) = false := by simpa using h45
     simp only [h45', Bool.false_eq_true, if_false] at hstep
     rw [scanNumber_other b rest h45]
-    exact num1_run k c hv data h hsm s b rest hstep (fuel + 1) p st r hat hp herr hf
+    exact num1_run k c hv.notHTop data h hsm s b rest hstep (fuel + 1) p st r hat hp herr hf
 
 theorem value_step {τ} (k : Kind) (hk : k ≠ .fast) (data : Bytes) (h : Handler τ) (hsm : Small data) (sf : Nat)
     (hA : ArrGoal k data h sf) (hO : ObjGoal k data h sf) : ValueGoal k data h (sf + 1) := by
@@ -445,11 +445,11 @@ theorem value_step {τ} (k : Kind) (hk : k ≠ .fast) (data : Bytes) (h : Handle
     cases rest with
     | nil => exact Outcome.of_eof k data h fuel _ st _ (p + 1) rfl hat' (minus_not_final c) _ _
     | cons d t =>
-      exact num1_run k c hv data h hsm _ d t (by simp only [machine, step]) fuel (p + 1) st _ hat' rfl herr hf'
+      exact num1_run k c hv.notHTop data h hsm _ d t (by simp only [machine, step]) fuel (p + 1) st _ hat' rfl herr hf'
   · have h45' : (b == 45) = false := by simpa using h45
     simp only [h45', Bool.false_eq_true, if_false] at hstep
     rw [scanNumber_other b rest h45]
-    exact num1_run k c hv data h hsm s b rest hstep (fuel + 1) p st r hat hp herr hf
+    exact num1_run k c hv.notHTop data h hsm s b rest hstep (fuel + 1) p st r hat hp herr hf
 
 theorem vctx_arr (k : Kind) : VCtx k .arr := ⟨rfl, by decide, rfl⟩
 
